@@ -162,6 +162,18 @@ def topUps : List String → List (Nat × Bool × Nat)
   | ["swapNoFee", u, d, a] => [(u.toNat?.getD 0, d = "ab", a.toNat?.getD 0)]
   | _ => []
 
+def parseTok : String → Option Tok
+  | "A" => some .a
+  | "B" => some .b
+  | "LP" => some .lp
+  | _ => none
+
+/-- `xfer src dst LP|A|B amount`: plain ESDT transfer between two accounts (no pair call) -/
+def parseXfer (n : Nat) : List String → Option LOp
+  | ["xfer", i, j, t, x] => do
+      pure (.xfer (slot n (← i.toNat?)) (slot n (← j.toNat?)) (← parseTok t) (← x.toNat?))
+  | _ => none
+
 def showAccts (l : List Acct) : String :=
   ";".intercalate (l.map fun x => s!"{x.a},{x.b},{x.lp},{x.lkA},{x.lkB}")
 
@@ -187,6 +199,14 @@ def handle (s : DSt) (line : String) : DSt × Option String :=
       -- the faucet runs first and stays even when the transaction fails
       let l1 := runL s.l ((topUps rest).map fun t => LOp.fund (slot s.n t.1) t.2.1 t.2.2)
       let s1 : DSt := { s with l := l1 }
+      match parseXfer s.n rest with
+      | some x =>
+        match stepL l1 x with
+        | some (l', _) =>
+            ({ s with l := l' },
+             some s!"R {n} ok 0 0 0 recv=0,0 lk=0,0 | {showState l'.p} acct={showAccts l'.accts}")
+        | none => (s1, some s!"R {n} err")
+      | none =>
       match parseOp rest with
       | none => (s1, some s!"R {n} err")
       | some op =>
